@@ -36,11 +36,16 @@ class Sim:
         self.outs = {}
         self.ins = {}
 
-    def new_interpreter(self, name, secure=True, legacy=False, stdin=""):
+    def new_interpreter(self, name, secure=True, legacy=False, stdin="",
+                        stdin_kind="protocol"):
         from ckl.interpreter import Interpreter
         it = Interpreter(secure, legacy)
         out = SimOut(self.w, name + ".out")
-        inp = SimIn(self.w, stdin, name + ".in")
+        if stdin_kind == "text":
+            from .world import SimTextIn
+            inp = SimTextIn(self.w, stdin, name + ".in")
+        else:
+            inp = SimIn(self.w, stdin, name + ".in")
         it.setStandardOutput(out)
         it.setStandardInput(inp)
         self.inst[name] = it
